@@ -758,6 +758,10 @@ func TestC03(t *testing.T) {
 		early++
 		cases = append(cases, run.Case{ID: sc.name + "/early-data", Run: func(t *testing.T) run.Outcome { return c03EarlyData(t, p, sc, env.Seed+1) }})
 	}
+	for _, cfg := range resumeClientConfigs() {
+		cfg := cfg
+		cases = append(cases, run.Case{ID: "12/rogue-client/resumes-without-secret/" + cfg.name, Run: func(t *testing.T) run.Outcome { return c03ResumeClient(t, p, cfg, env.Seed+1) }})
+	}
 	for _, cfg := range resumeEchoConfigs() {
 		cfg := cfg
 		cases = append(cases, run.Case{ID: "12/rogue-server/resumption-echo/" + cfg.name, Run: func(t *testing.T) run.Outcome { return c03ResumeEcho(t, p, cfg, env.Seed+1) }})
